@@ -264,10 +264,19 @@ func (w *World) afterFirstSync() {
 	}
 	if w.armed("C16") {
 		if len(d) > 0 {
-			// C16 judges what the rules of a synchronised node mean; a node that did not reach the expected
-			// state is C15's finding (same histories) and is not judged twice
-			w.S.Stat("c16.skipped-unconverged")
-			return
+			// A node that did not reach the expected state for a reason C15 already reports as a known finding
+			// (stale leftovers: D8, S1, S3) is not judged a second time here. Any other difference from the
+			// expected compiled state does NOT excuse the rules: they are judged as they are (a wrong
+			// compilation is exactly what C16 is about).
+			if len(stale0) > 0 {
+				w.S.Stat("c16.skipped-c15-known")
+				return
+			}
+			if rest, _ := w.explainConvergence(d, e, o); len(rest) == 0 {
+				w.S.Stat("c16.skipped-c15-known")
+				return
+			}
+			w.S.Stat("c16.judged-although-unconverged")
 		}
 		w.judgeFlows(o)
 	}
